@@ -1,5 +1,7 @@
+pub mod c20;
 pub mod events;
 pub mod frame;
+pub mod kbd;
 pub mod layouts;
 pub mod sc;
 
@@ -28,8 +30,11 @@ pub fn run_check(id: &str, run: &mut Run) -> bool {
         "C05" => frame::c05(run),
         "C06" => frame::c06(run),
         "C07" => sc::c07(run),
+        "C08" => kbd::c08(run),
+        "C18" => kbd::c18(run),
         "C13" => sc::c13(run),
         "C19" => sc::c19(run),
+        "C20" => c20::c20(run),
         _ => return false,
     }
     true
@@ -37,5 +42,5 @@ pub fn run_check(id: &str, run: &mut Run) -> bool {
 
 /// Re-run exactly one saved case through the plain evaluators (no proptest, no fuzzer).
 pub fn replay_case(_id: &str, run: &mut Run, case: &Value) -> bool {
-    sc::replay(run, case) || frame::replay(run, case) || events::replay(run, case) || layouts::replay(run, case)
+    sc::replay(run, case) || frame::replay(run, case) || events::replay(run, case) || layouts::replay(run, case) || kbd::replay(run, case) || c20::replay(run, case)
 }
